@@ -120,15 +120,18 @@ _reg("C05", c05.run,
      level_note="Lean kernel; hand-written model of each __post_init__ over the translator-generated field table (T1); "
                 "correspondence sampling; numpy shape semantics are modelled, not verified.")
 _reg("C08", c08.run, translator=("T1", "T4", "T5"),
-     theorems=["NirVerif.C08.restore", "NirVerif.C08.localTyping_of_nodes"],
+     theorems=["NirVerif.C08.restore", "NirVerif.C08.localTyping_of_nodes", "NirVerif.C08.restoreG",
+               "NirVerif.C08.localTypingK_of_nodes", "NirVerif.C08.restore_keyed"],
      level_text="Kernel-checked: for every flat graph with unique names in which every node is an Input or reachable "
                 "from one, and every typing tau that is consistent edge-by-edge with the partly erased graph, infer_types "
                 "succeeds, leaves every node with exactly tau's shapes (Outputs included, none undefined) and the result "
                 "passes the type check - for any topology, edge order, cycle, parallel edge, fan-in/out (work-list "
                 "invariant: sources seen, soundness, closure under successors, untouched-if-unseen). The edge-local "
-                "condition is itself proved for erased/wrong Output shapes and erased input-side annotations; for erased "
-                "Conv/Flatten/pooling annotations it is a hypothesis of the theorem, validated by the correspondence run "
-                "against ground truth computed forwards by an independent oracle.",
+                "condition is itself proved for erased/wrong Output shapes, erased input-side annotations and (with the "
+                "standard port names, restore_keyed) erased Flatten output types, whose recomputation from the restored "
+                "input shape is part of the proved loop body; for erased Conv/pooling annotations it is a hypothesis "
+                "of the theorem, validated by the correspondence run against ground truth computed forwards by an "
+                "independent oracle.",
      level_note="Lean kernel; hand-written model of infer_types/_check_types; per-kind shape arithmetic of Conv/Flatten is "
                 "covered by C06/C07 theorems over the translator-generated kernels, its embedding in the loop body by sampling.",
      rule="Consistent graphs built forwards from Inputs (all primitives, fan-in/out, residual/recurrent/self/parallel "
